@@ -404,7 +404,8 @@ def proc_exec(case):
     viol, dis, nlib, nw2, nr2 = [], 0, 0, 0, 0
     used = []
     st = None
-    where = lambda: "in one process after the %d formats [%s%s]%s" % (len(used), "... " if len(used) > 4 else "", "; ".join(fmt_text(f) for f in used[-4:]), "" if st is None else ", %s picture held as %s" % (fmt_text(st["f"]), st["k"]))
+    hist_text = lambda: ("in one process after the %d formats [%s%s]" % (len(used), "... " if len(used) > 4 else "", "; ".join(fmt_text(f) for f in used[-4:]))) if case.get("fresh", True) else "(process history not modelled)"
+    where = lambda: hist_text() + ("" if st is None else ", %s picture held as %s" % (fmt_text(st["f"]), st["k"]))
     path = lambda s: os.path.join(case["dir"], "u%d_%s_0.raw" % (len(used), s))
     for n, step in enumerate(case["hist"]):
         i, exp = step["i"], step["exp"]
@@ -510,18 +511,29 @@ def proc_leaf(arg):
     return r
 
 
+_RE_HVAR = re.compile(r"^/\\ (p|n|rank|last|inp) = (.*)$", re.M)
+_HPARSE = {}
+
+
 def hist_state(block):
-    st = parse_vars(block, ["p", "n", "rank", "last", "inp"])
-    if st["p"] == 0 or J(st["inp"])["a"] == "start":
+    """one dumped RawFileHist state -> (pivot, position in the process, step as JSON); the few distinct
+    inp / last texts are parsed once"""
+    st = dict(_RE_HVAR.findall(block))
+    if len(st) != 5:
+        raise RuntimeError("unexpected RawFileHist state %r" % (block,))
+    if st["p"] == "0" or '"start"' in st["inp"]:
         return None
-    return (st["p"], st["n"] * 8 + st["rank"], json.dumps({"i": J(st["inp"]), "exp": J(st["last"])}, sort_keys=True))
+    key = (st["inp"], st["last"])
+    if key not in _HPARSE:
+        _HPARSE[key] = json.dumps({"i": J(tlaval.parse(st["inp"])), "exp": J(tlaval.parse(st["last"]))}, sort_keys=True)
+    return (int(st["p"]), int(st["n"]) * 8 + int(st["rank"]), _HPARSE[key])
 
 
 def hist_processes(res):
     """the behaviours of a dumped RawFileHist run: per pivot the chain of its steps in order"""
     per = {}
     n = 0
-    for t in common.pmap(hist_state, dump_blocks(res.dump_path)):
+    for t in map(hist_state, dump_blocks(res.dump_path)):
         if t is not None:
             per.setdefault(t[0], []).append(t[1:])
             n += 1
@@ -537,7 +549,7 @@ def hist_processes(res):
 def proc_leaves(res):
     """histories of a dumped RawFileProc run that are not a proper prefix of another dumped history: replaying
     them with every step checked covers every dumped state (each is the end of a prefix of a replayed history)."""
-    hs = common.pmap(proc_hist, dump_blocks(res.dump_path))
+    hs = [proc_hist(b) for b in dump_blocks(res.dump_path)]
     steps = []
     for h in hs:
         steps.append(json.loads(h))
@@ -770,16 +782,16 @@ def rec_any(job):
     return (rec_rt if kind == "rt" else rec_cmp)((tid, seed))
 
 
-def trace_direction(ctx):
+def trace_direction(ctx, ses_jobs, ses_out):
+    """ses_out: the events of the sessions (each recorded in a freshly forked process, see proc_direction)"""
     from .. import trace
 
-    counts = ctx.pick({"rt": 600, "cmp": 900, "ses": 32}, {"rt": 6000, "cmp": 9000, "ses": 320})
-    # sessions first: each is one freshly forked process (the pool workers of this map only fork)
-    sjobs = [("ses", 1000000 + 1000 * k, ctx.seed * 1000003 + 7919 * k) for k in range(counts["ses"])]
+    counts = ctx.pick({"rt": 600, "cmp": 900}, {"rt": 6000, "cmp": 9000})
+    counts["ses"] = len(ses_jobs)
     records, rec_jobs = [], []
-    for job, evs in zip(sjobs, common.pmap(rec_any, sjobs, chunksize=1)):
+    for job, evs in zip(ses_jobs, ses_out):
         records += evs
-        rec_jobs += [job] * len(evs)
+        rec_jobs += [("ses",) + tuple(job)] * len(evs)
     nses = len(records)
     jobs = []
     tid = 0
@@ -902,8 +914,17 @@ def selftest_proc(arg):
     return hits
 
 
-def proc_direction(ctx, runs):
-    """runs: list of (module, name, consts, TLCResult) of RawFileProc / RawFileHist configurations.  Must be called
+FRESH_PROCS = 8  # concurrent freshly forked processes (fork + copy-on-write scale badly beyond that on a busy box)
+
+
+def fresh_job(arg):
+    kind, payload = arg
+    return proc_leaf((payload, True)) if kind == "leaf" else rec_session(payload)
+
+
+def proc_direction(ctx, runs, ses_jobs):
+    """runs: list of (module, name, consts, TLCResult) of RawFileProc / RawFileHist configurations; ses_jobs: the
+    recording sessions of the T direction (they need fresh processes too and share the pool).  Must be called
     before this process uses the code under test itself (histories that model a process from its start run in
     a freshly forked child)."""
     stats = {"configurations": {}, "histories_replayed": 0, "processes_forked": 0, "dumped_states_covered": 0, "library_calls": 0, "second_writes": 0, "reads_of_second_writes": 0, "kinds": {}}
@@ -911,6 +932,7 @@ def proc_direction(ctx, runs):
     samples = []
     alias_probe, hist_probe = [], []
     consecutive, first_use = set(), set()
+    todo = []
     for module, name, consts, res in runs:
         fix_coverage(res)
         if module == "RawFileProc":
@@ -922,36 +944,44 @@ def proc_direction(ctx, runs):
             require_actions(res, ["Start", "Use"])
             leaves, covered = hist_processes(res)
         ctx.add_tlc(res, "%s exhaustive (%s)" % (module, name), consts)
-        out = common.pmap(proc_leaf, [(h, fresh) for h in leaves], chunksize=1 if fresh else max(1, min(64, len(leaves) // 128)))
         stats["configurations"][name] = {"module": module, "dumped_states": covered, "histories_replayed": len(leaves), "each_in_a_fresh_process": fresh}
         stats["histories_replayed"] += len(leaves)
         stats["processes_forked"] += len(leaves) if fresh else 0
         stats["dumped_states_covered"] += covered
-        for h, r in zip(leaves, out):
-            dis += r["disagreements"]
-            for k in ("library_calls", "second_writes", "reads_of_second_writes"):
-                stats[k] += r[k]
-            for k in r["kinds"]:
-                stats["kinds"][k] = stats["kinds"].get(k, 0) + 1
-            if fresh and str(consts["Shapes"]) == "ShapeF0":
-                fm = [tuple(x) for x in r["formats"]]
-                seen = []
-                for j, x in enumerate(fm):
-                    if j:
-                        consecutive.add((fm[j - 1], x))
-                    if x not in seen:
-                        first_use.update((g, x) for g in seen)
-                        seen.append(x)
-            for sig, what in r["violations"]:
-                ctx.violation(sig, what, {"kind": "proc", "case": r["case"]})
-            if r["case"] is not None and not r["violations"] and len(samples) < 3 and name not in [x[0] for x in samples]:
-                samples.append((name, r["case"]))
-            if not fresh and r["reads_of_second_writes"] and r["kinds"] == ["npobj"] and len(alias_probe) < 10:
-                f = json.loads(h)[0]["i"]["f"]
-                if max(f["dl"], f["dc"]) > 8:
-                    alias_probe.append({"hist": json.loads(h), "salt": 5})
-            if module == "RawFileHist" and r["formats"][0] in ([1, 1], [3, 3]) and str(consts["Shapes"]) == "ShapeF0":
-                hist_probe.append({"hist": json.loads(h), "salt": 6})
+        todo += [(module, name, consts, fresh, h) for h in leaves]
+    # one pool for everything that needs a fresh process (longest first), one for the rest
+    fresh_items = sorted([("leaf", t[4]) for t in todo if t[3]], key=lambda x: -len(x[1])) + [("ses", j) for j in ses_jobs]
+    fresh_out = common.pmap(fresh_job, fresh_items, procs=FRESH_PROCS, chunksize=1)
+    by_hist = dict((it[1], r) for it, r in zip(fresh_items, fresh_out) if it[0] == "leaf")
+    ses_out = [r for it, r in zip(fresh_items, fresh_out) if it[0] == "ses"]
+    shared = [t[4] for t in todo if not t[3]]
+    by_hist.update(zip(shared, common.pmap(proc_leaf, [(h, False) for h in shared], chunksize=max(1, min(64, len(shared) // 128)))))
+    for module, name, consts, fresh, h in todo:
+        r = by_hist[h]
+        dis += r["disagreements"]
+        for k in ("library_calls", "second_writes", "reads_of_second_writes"):
+            stats[k] += r[k]
+        for k in r["kinds"]:
+            stats["kinds"][k] = stats["kinds"].get(k, 0) + 1
+        if fresh and str(consts["Shapes"]) == "ShapeF0":
+            fm = [tuple(x) for x in r["formats"]]
+            seen = []
+            for j, x in enumerate(fm):
+                if j:
+                    consecutive.add((fm[j - 1], x))
+                if x not in seen:
+                    first_use.update((g, x) for g in seen)
+                    seen.append(x)
+        for sig, what in r["violations"]:
+            ctx.violation(sig, what, {"kind": "proc", "case": r["case"]})
+        if r["case"] is not None and not r["violations"] and len(samples) < 3 and name not in [x[0] for x in samples]:
+            samples.append((name, r["case"]))
+        if not fresh and r["reads_of_second_writes"] and r["kinds"] == ["npobj"] and len(alias_probe) < 10:
+            f = json.loads(h)[0]["i"]["f"]
+            if max(f["dl"], f["dc"]) > 8:
+                alias_probe.append({"hist": json.loads(h), "salt": 5})
+        if module == "RawFileHist" and r["formats"][0] in ([1, 1], [3, 3]) and str(consts["Shapes"]) == "ShapeF0":
+            hist_probe.append({"hist": json.loads(h), "salt": 6})
     every = [(d, d) for d in range(1, 65)]
     stats["ordered_depth_pairs_used_consecutively_in_one_process"] = sum(1 for a in every for b in every if (a, b) in consecutive)
     stats["ordered_depth_pairs_first_use_after_the_other"] = sum(1 for a in every for b in every if (a, b) in first_use)
@@ -964,7 +994,7 @@ def proc_direction(ctx, runs):
     hits = in_fresh_process(selftest_proc, (alias_probe, hist_probe, workdir())) if alias_probe and hist_probe else {"alias": 0, "history": 0}
     guard(ctx, hits["alias"] > 0 and hits["history"] > 0, "process-level binding self-test failed: in-place write_picture / hash-memoised dimensions flagged on %r of %d / %d histories" % (hits, len(alias_probe), len(hist_probe)))
     stats["binding_selftest"] = {"mutants": "write_picture that shifts numpy object arrays of the caller in place; compute_dimensions_and_depths memoised under hash() of the parameters (both installed in a forked child)", "histories_flagging_them": hits}
-    return stats, dis, [c for _, c in samples]
+    return stats, dis, [c for _, c in samples], ses_out
 
 
 def selftest_binding(cases):
@@ -995,8 +1025,8 @@ def run(ctx):
     pconf = [
         # objects of every container kind, written up to twice, read and compared in any order (process history not modelled)
         ("RawFileProc", "objects: container kinds", dict(Shapes="ShapeF0", DepthPairs=ctx.pick("DepthsKinds", "DepthsKindsMore"), Kinds="AllKinds", MaxWrites=2, MaxPrev=0, Canon="FALSE")),
-        # every history of up to two earlier formats over depths that are congruent modulo 61, one fresh process each
-        ("RawFileProc", "short histories: two earlier formats", dict(Shapes="ShapeF0", DepthPairs=ctx.pick("DepthsNeg", "DepthsEdge"), Kinds="KindsList", MaxWrites=1, MaxPrev=2, Canon="TRUE")),
+        # every history with one (thorough: up to two) earlier formats over depths that are congruent modulo 61, one fresh process each
+        ("RawFileProc", "short histories: one (thorough: two) earlier formats", dict(Shapes="ShapeF0", DepthPairs=ctx.pick("DepthsNeg", "DepthsEdge"), Kinds="KindsList", MaxWrites=1, MaxPrev=ctx.pick(1, 2), Canon="TRUE")),
         # one process per pivot depth: every depth immediately before and after the pivot, first used after it
         ("RawFileHist", "long histories: every depth after every other", dict(Shapes="ShapeF0", DepthPairs=ctx.pick("DepthsEvery", "DepthsEveryAlt"))),
         # the same over every small shape / subsampling / coding mode at two depth pairs
@@ -1009,7 +1039,12 @@ def run(ctx):
     specs = [{"module": "RawFile", "cfg": cfg_text("RawFile.cfg", **consts), "kwargs": {"dump": True, "workers": 1}}]
     specs += [{"module": m, "cfg": cfg_text(m + ".cfg", **c), "kwargs": {"dump": True, "workers": 1}} for m, _, c in pconf]
     specs += [{"module": "RawFileProc", "cfg": cfg_text("RawFileProc.cfg", **c), "kwargs": {"workers": 1, "allow_invariant_violation": True}} for _, c in negs]
+    import time
+
+    cpu = lambda: round(sum(os.times()[:4]), 1)
+    phase, t0, c0 = {}, time.time(), cpu()
     R = tlc_many(specs)
+    phase["tlc_models"], t0, c0 = {"wall": round(time.time() - t0, 1), "cpu": round(cpu() - c0, 1)}, time.time(), cpu()
     res = R[0]
     spec_selftest = {}
     for (inv, c), r in zip(negs, R[1 + len(pconf) :]):
@@ -1017,8 +1052,11 @@ def run(ctx):
             raise RuntimeError("spec self-test: RawFileProc with %r does not violate %s (%r)" % (c, inv, r.invariant_violated))
         spec_selftest[inv] = "violated by the negative model %s after %d states" % (" ".join("%s=%s" % kv for kv in sorted(c.items()) if kv[0] in ("WriteImpl", "CacheImpl")), r.generated)
     # process-level histories first: this process must not have used the code under test before they are forked
-    pstats, pdis, psamples = proc_direction(ctx, [(m, n, c, r) for (m, n, c), r in zip(pconf, R[1 : 1 + len(pconf)])])
+    nses = ctx.pick(32, 320)
+    ses_jobs = [(1000000 + 1000 * k, ctx.seed * 1000003 + 7919 * k) for k in range(nses)]
+    pstats, pdis, psamples, ses_out = proc_direction(ctx, [(m, n, c, r) for (m, n, c), r in zip(pconf, R[1 : 1 + len(pconf)])], ses_jobs)
     pstats["negative_models"] = spec_selftest
+    phase["process_level_replay"], t0, c0 = {"wall": round(time.time() - t0, 1), "cpu": round(cpu() - c0, 1)}, time.time(), cpu()
     fix_coverage(res)
     require_actions(res, ["ChooseFormat", "ChooseDepths", "ChoosePicture", "Compare"])
     ctx.add_tlc(res, "RawFile exhaustive", dict(consts, MaxDepth=64))
@@ -1037,7 +1075,9 @@ def run(ctx):
     for r in out:
         if r["stage"] == "cmp":
             exits[r["sample"]["obs"]["exit"]] = exits.get(r["sample"]["obs"]["exit"], 0) + 1
-    ntr, tdis, tstats, tsamples = trace_direction(ctx)
+    phase["configuration_replay"], t0, c0 = {"wall": round(time.time() - t0, 1), "cpu": round(cpu() - c0, 1)}, time.time(), cpu()
+    ntr, tdis, tstats, tsamples = trace_direction(ctx, ses_jobs, ses_out)
+    phase["recorded_traces"], t0, c0 = {"wall": round(time.time() - t0, 1), "cpu": round(cpu() - c0, 1)}, time.time(), cpu()
     probe = [r["sample"] for r in out if r["stage"] == "pic" and r["sample"]["fmt"]["dl"] == 64 and r["sample"]["pic"]["sc"] == "max"][:20]
     hit = selftest_binding(probe)
     guard(ctx, hit > 0, "binding self-test failed: a read_picture losing bit 63 was not detected")
@@ -1048,6 +1088,7 @@ def run(ctx):
             "traces_validated_against_impl": len(out) + ntr + pstats["histories_replayed"],
             "replayed_configurations": {"write_read": npic, "compare": ncmp, "compare_expected_exit_codes": exits},
             "process_level": pstats,
+            "phase_seconds": phase,
             "recorded_events": ntr,
             "recorded_stats": tstats,
             "trace_spec_disagreements": tdis,
